@@ -796,6 +796,13 @@ pub fn handle_sem(req: &Value) -> Value {
                 ("complement", sx.complement()),
                 ("double_complement", sx.complement().and_then(|c| c.complement())),
                 ("de_morgan", sx.complement().and_then(|cx| sy.complement().and_then(|cy| cx.intersect(&cy))).and_then(|z| z.complement())),
+                // mixed polarity, in both operand orders (negative operand on the left / on the right / on both sides)
+                ("intersect_cx_y", sx.complement().and_then(|cx| cx.intersect(&sy))),
+                ("intersect_x_cy", sy.complement().and_then(|cy| sx.intersect(&cy))),
+                ("diff_cx_cy", sx.complement().and_then(|cx| sy.complement().and_then(|cy| cx.diff(&cy)))),
+                ("union_cx_y", sx.complement().and_then(|cx| cx.union(&sy))),
+                ("union_x_cy", sy.complement().and_then(|cy| sx.union(&cy))),
+                ("diff_x_cy", sy.complement().and_then(|cy| sx.diff(&cy))),
             ];
             let mut problems: Vec<Value> = vec![];
             let mut evals = 0u64;
@@ -828,6 +835,11 @@ pub fn handle_sem(req: &Value) -> Value {
                             "diff_rev" => my && !mx,
                             "complement" => !mx,
                             "double_complement" => mx,
+                            "intersect_cx_y" | "diff_cx_cy" => !mx && my,
+                            "intersect_x_cy" => mx && !my,
+                            "union_cx_y" => !mx || my,
+                            "union_x_cy" => mx || !my,
+                            "diff_x_cy" => mx && my,
                             _ => unreachable!(),
                         };
                         if let Some(got) = ev.member(r, v) {
